@@ -589,7 +589,9 @@ def run_cases(ctx, driver, mod, cases):
 
 def case_class_suffix(case):
     """":trailing-nul" when a string value of the case ends in a null character (NumPy's fixed-width
-    strings cannot hold it: a recorded finding of its own, see known_findings.json)."""
+    strings cannot hold it: a recorded finding of its own, see known_findings.json); ":reserved-name" when a data column
+    of the case is named `_index_`, `_sorted_index_` or `_group_` (the grouping code stores its own bookkeeping columns
+    under these names in its working frame and overwrites / misreads the user's column: a recorded finding of its own)."""
     def walk(x):
         if isinstance(x, str):
             return x.endswith("\x00")
@@ -598,7 +600,20 @@ def case_class_suffix(case):
         if isinstance(x, (list, tuple)):
             return any(walk(v) for v in x)
         return False
-    return ":trailing-nul" if walk(case) else ""
+    if walk(case):
+        return ":trailing-nul"
+
+    def reserved(x):
+        # a data column named like one of the bookkeeping columns the grouping code adds to its working frame
+        if isinstance(x, dict):
+            return x.get("name") in RESERVED_COLUMN_NAMES or any(reserved(v) for v in x.values())
+        if isinstance(x, (list, tuple)):
+            return any(reserved(v) for v in x)
+        return False
+    return ":reserved-name" if reserved(case) else ""
+
+
+RESERVED_COLUMN_NAMES = ("_index_", "_sorted_index_", "_group_")
 
 
 def default_run(mod):
